@@ -38,6 +38,21 @@ COMMENT_ONLY = [
     "#\n", "\t# tab then comment\n\n", "# one\n# two\n# three\n",
 ]
 
+# benign programs whose first lines hold a comment that *looks like* a PEP 263 declaration (unknown codec names,
+# prose containing "coding:" / "coding="), a latin-1 cookie on a UTF-8 file with non-ASCII characters, a BOM
+CODING_LIKE = [
+    "# coding: utf8x\nx = 1\n",
+    "# avoid hard-coding: values\nx = 1\n",
+    "x = 0\n# hard-coding=magic numbers is bad\ny = 1\n",
+    "#!/usr/bin/env python\n# vim: set fileencoding=utf-42 :\nprint(1)\n",
+    "# -*- coding: latin-1 -*-\ns = 'é'\nprint(s)\n",
+    "\ufeff# coding: utf-8\nx = 1\n",
+    "# -*- coding: utf-8 -*-\nx = 'é'\n",
+    "# decoding: rot13 of nothing\nx = 2\n",
+    "   # coding=none-of-your-business\n",
+    "# coding: ascii\ns = 'é'\n",
+]
+
 FIXED_BAD = COMMENT_ONLY + [
     "x = (1,\n", 'x = """abc\n', "if x:\n        y = 1\n    z = 2\n", "x = 1\x00\n", "", "   \n\n", "\t",
     "x = 1\x0c\n", "def (:\n", "x = 'a\n", "\\", "x = 1 \\", "if x:\n\ty=1\n        z=2\n", "\ufeffx = 1\n",
@@ -273,7 +288,7 @@ def gen_dir(rng):
     files, bad = {}, []
     kinds = []
     for i in range(n_good):
-        body = rng.choice(VALID)
+        body = rng.choice(VALID + CODING_LIKE[:4]) if rng.random() < 0.85 else rng.choice(CODING_LIKE)
         if i > 0 and rng.random() < 0.5:
             body = f"import {names[0]}\n" + body
         files[f"{names[i]}.py"] = body
@@ -369,6 +384,9 @@ def stream_dirs(ctx, drv, orc, n_dirs):
         ({"a.py": "import b\nx = 1\n", "b.py": "import a\n", "c.py": "def (:)\n"}, ["c.py"]),
         ({"a.py": "x = $\n"}, ["a.py"]),
         ({"a.py": "x = 1\n", "b.py": "# just a comment\n"}, ["b.py"]),
+        ({"a.py": CODING_LIKE[0], "b.py": CODING_LIKE[1], "c.py": "x = (1,\n"}, ["c.py"]),
+        ({"a.py": CODING_LIKE[2], "b.py": CODING_LIKE[3], "c.py": CODING_LIKE[4], "d.py": ""}, ["d.py"]),
+        ({"a.py": CODING_LIKE[5], "b.py": CODING_LIKE[6], "c.py": CODING_LIKE[7], "d.py": CODING_LIKE[8], "e.py": CODING_LIKE[9]}, ["d.py"]),
         ({"a.py": "# coding: utf-8\n", "b.py": "# a\n\n# b\n\n", "c.py": "import a\n"}, ["a.py", "b.py"]),
         # a bad file named like a dotted module, next to a program importing that (uncollected) module
         ({"a.py": "import os.path\nx = 1\n", "os.path.py": "x = (1,\n"}, ["os.path.py"]),
